@@ -218,9 +218,157 @@ func (rw *rewriter) block(b *ast.BlockStmt) {
 func (rw *rewriter) stmtList(list []ast.Stmt) []ast.Stmt {
 	var out []ast.Stmt
 	for _, s := range list {
+		acc := rw.accesses(s) // R9, computed on the statement as written
 		pre, repl := rw.stmt(s)
+		out = append(out, acc...)
 		out = append(out, pre...)
 		out = append(out, repl)
+	}
+	return out
+}
+
+// mapField: e is a map-typed struct field reached through variables, field
+// selections and pointer indirections only (so that &e can be taken, once).
+func (rw *rewriter) mapField(e ast.Expr) *ast.SelectorExpr {
+	sel, ok := ast.Unparen(e).(*ast.SelectorExpr)
+	if !ok {
+		return nil
+	}
+	sl, ok := rw.info.Selections[sel]
+	if !ok || sl.Kind() != types.FieldVal {
+		return nil
+	}
+	if _, isMap := sl.Type().Underlying().(*types.Map); !isMap {
+		return nil
+	}
+	var plain func(x ast.Expr) bool
+	plain = func(x ast.Expr) bool {
+		switch v := ast.Unparen(x).(type) {
+		case *ast.Ident:
+			_, isVar := rw.info.Uses[v].(*types.Var)
+			return isVar
+		case *ast.SelectorExpr:
+			if s2, ok := rw.info.Selections[v]; ok && s2.Kind() == types.FieldVal {
+				return plain(v.X)
+			}
+		case *ast.StarExpr:
+			return plain(v.X)
+		}
+		return false
+	}
+	if !plain(sel.X) {
+		return nil
+	}
+	return sel
+}
+
+// accesses: R9. For every map-typed struct field the statement's own
+// expressions read or write (nested blocks and function literals are handled
+// where they are instrumented), a call `simrt.Access(&x.f, site, write)` to put
+// in front of the statement. Not a scheduling point: it feeds the lockset
+// checker (simrt.Config.Lockset).
+func (rw *rewriter) accesses(s ast.Stmt) []ast.Stmt {
+	var nodes []ast.Node
+	switch x := s.(type) {
+	case *ast.ExprStmt, *ast.SendStmt, *ast.IncDecStmt, *ast.AssignStmt, *ast.DeclStmt, *ast.ReturnStmt:
+		nodes = append(nodes, x)
+	case *ast.DeferStmt:
+		nodes = append(nodes, argsNodes(x.Call)...)
+	case *ast.GoStmt:
+		nodes = append(nodes, argsNodes(x.Call)...)
+	case *ast.IfStmt:
+		for cur := x; cur != nil; {
+			nodes = append(nodes, cur.Init, cur.Cond)
+			next, _ := cur.Else.(*ast.IfStmt)
+			cur = next
+		}
+	case *ast.ForStmt:
+		nodes = append(nodes, x.Init, x.Cond, x.Post)
+	case *ast.RangeStmt:
+		nodes = append(nodes, x.X)
+	case *ast.SwitchStmt:
+		nodes = append(nodes, x.Init, x.Tag)
+	case *ast.TypeSwitchStmt:
+		nodes = append(nodes, x.Init, x.Assign)
+	case *ast.LabeledStmt:
+		return rw.accesses(x.Stmt)
+	default:
+		return nil
+	}
+	writes := map[*ast.SelectorExpr]bool{}
+	markLHS := func(e ast.Expr) {
+		if ix, ok := ast.Unparen(e).(*ast.IndexExpr); ok {
+			if f := rw.mapField(ix.X); f != nil {
+				writes[f] = true
+			}
+		}
+		if f := rw.mapField(e); f != nil {
+			writes[f] = true
+		}
+	}
+	type acc struct {
+		f     *ast.SelectorExpr
+		write bool
+	}
+	var found []acc
+	seen := map[string]bool{}
+	for _, n := range nodes {
+		if n == nil || isNilNode(n) {
+			continue
+		}
+		ast.Inspect(n, func(n ast.Node) bool {
+			switch v := n.(type) {
+			case *ast.FuncLit:
+				return false
+			case *ast.AssignStmt:
+				for _, l := range v.Lhs {
+					markLHS(l)
+				}
+			case *ast.IncDecStmt:
+				markLHS(v.X)
+			case *ast.CallExpr:
+				if id, ok := ast.Unparen(v.Fun).(*ast.Ident); ok && len(v.Args) > 0 {
+					if b, isB := rw.info.Uses[id].(*types.Builtin); isB && (b.Name() == "delete" || b.Name() == "clear") {
+						if f := rw.mapField(v.Args[0]); f != nil {
+							writes[f] = true
+						}
+					}
+				}
+			}
+			return true
+		})
+		ast.Inspect(n, func(n ast.Node) bool {
+			if _, isLit := n.(*ast.FuncLit); isLit {
+				return false
+			}
+			if e, ok := n.(ast.Expr); ok {
+				if f := rw.mapField(e); f != nil && ast.Unparen(e) == ast.Expr(f) {
+					key := fmt.Sprintf("%s/%v", types.ExprString(f), writes[f])
+					if !seen[key] {
+						seen[key] = true
+						found = append(found, acc{f, writes[f]})
+					}
+					return false
+				}
+			}
+			return true
+		})
+	}
+	var out []ast.Stmt
+	for _, a := range found {
+		rw.used = true
+		w := "false"
+		if a.write {
+			w = "true"
+		}
+		out = append(out, &ast.ExprStmt{X: &ast.CallExpr{
+			Fun: &ast.SelectorExpr{X: ast.NewIdent(simAlias), Sel: ast.NewIdent("Access")},
+			Args: []ast.Expr{
+				&ast.UnaryExpr{Op: token.AND, X: a.f},
+				&ast.BasicLit{Kind: token.STRING, Value: strconv.Quote(rw.site(a.f.Pos(), "access"))},
+				ast.NewIdent(w),
+			},
+		}})
 	}
 	return out
 }
